@@ -100,10 +100,10 @@ PROPS = {
         "assumptions": COMMON_ASSUME + [
             "the ASCII theorems are at token level for every list of in-domain, pairwise non-overlapping elements; that the writer is fed with elements covering exactly M is the cell view of C05 (model function itemsOf, tied by the ascii_enc correspondence: model text = real text)",
             "fold widths, start+len notation, streaming ASCII, JSON, FITS header cards, NUNIQ files and lazy writers are exercised on real bytes by direct round-trip checks (test level); the FITS data unit bytes and padded length are tied to the model (fits_payload)"],
-        "rule": "{space,time,frequency} x {u16,u32,u64}, 60 MOCs each (400 thorough): empty, full domain, deepest level unoccupied (declared depth > needed), shallow and deep random MOCs; per MOC: ASCII text "
+        "rule": "{space,time,frequency} x {u16,u32,u64}, 60 MOCs each (2500 thorough): empty, full domain, deepest level unoccupied (declared depth > needed), shallow and deep random MOCs; per MOC: ASCII text "
                 "without fold = model text; reader on it and on 4 folded/offset variants written from a lazy source of random kind (owned, borrowed, cells adapter, cellranges adapter, FITS stream) = model "
                 "reader; streaming ASCII x2, JSON x2 (folded), FITS ranges from an in-memory and from a lazy writer (header NAXIS1/NAXIS2 vs data, 2880 blocks, data bytes = model), read back and compared "
-                "with (depth, ranges); + 100 (600) space MOCs through NUNIQ FITS. distinct_nontrivial = distinct op lines with a non-empty MOC.",
+                "with (depth, ranges); + 100 (5000) space MOCs through NUNIQ FITS. distinct_nontrivial = distinct op lines with a non-empty MOC.",
         "explanation": "theorems: token-level ASCII round trip for every element list/order/dmax (incl. empty and unoccupied deepest level), big-endian and row pairing round trips, 2880 padding, NUNIQ code round trip; correspondence on real bytes for all formats and options",
     },
     "C11": {
@@ -111,7 +111,7 @@ PROPS = {
         "assumptions": COMMON_ASSUME + [
             "theorem hypothesis ElemOk: every element has a non-empty time part and a non-empty space part and no space row has both bounds >= 2^(w-1) (true of every HEALPix index); the necessity of the non-empty space part is a proved counterexample",
             "ASCII ('t.. s..') and JSON ST syntaxes, header cards and depths are exercised by direct round trips on real bytes (test level), not modelled; u64 indices only"],
-        "rule": "800 (6000 thorough) ST-MOCs: empty (1 in 25), 1..many elements with multi-range time parts, one in five with a time range reaching the top of the time domain (2^62): FITS v2 written by the "
+        "rule": "three passes (time depth 2; depth 61 from 0; depth 61 just below the top of the time domain: indices above 2^53) of 400 (15000 thorough) ST-MOCs: empty (1 in 25), 1..many elements with multi-range time parts, one in five with a time range reaching the top of the time domain (2^62): FITS v2 written by the "
                 "real writer — its (start,end) rows = model rows (st_fits_enc), real reader on those rows = model reader (st_fits_dec), decoded value = original with both depths, re-serialisation gives the "
                 "same bytes; ASCII (fold 80) and JSON (fold 40) written and read back = original with both depths. distinct_nontrivial = distinct op lines with a non-empty MOC.",
         "explanation": "theorems: FITS v2 row encoding inverted exactly for every element list (split on flag alternation), row count, empty MOC, necessity of non-empty space parts; correspondence on real files + direct ASCII/JSON round trips",
@@ -122,10 +122,10 @@ PROPS = {
             "totality is a theorem about the MODEL reader only (a total Lean function); for the real decoders (FITS, MOM, skymap, stream, JSON, ST variants, store loaders) it is exercised by mutation fuzzing with every panic reported (test level)",
             "allocation: header counts of 10^12 / 4*10^9 are tried in child processes limited to 3 GB of address space (an abort on allocation is a failure); smaller over-allocations are not measured",
             "multi-order-map and sky-map readers are driven from the two real files shipped under /repo/resources/Skymap (skipped with a counter if they are missing)"],
-        "rule": "per {space,time,frequency} x {u16,u32,u64} x 60 MOCs (400 thorough): 12 (40) single-field mutations of the valid ASCII document — first index outside / last inside the domain, range end "
+        "rule": "per {space,time,frequency} x {u16,u32,u64} x 60 MOCs (2500 thorough): 12 (40) single-field mutations of the valid ASCII document — first index outside / last inside the domain, range end "
                 "outside, reversed range, inclusive end = type maximum, offset reaching the maximum, number not representable, truncation at a random offset, one character replaced, two documents glued "
                 "(overlaps) — each decoded by the real reader and by the model (same verdict, depth and ranges); the same boundary numbers as JSON; 8 (30) mutated FITS files and 4 (10) mutated streaming "
-                "documents (any panic is a failure); + 500 (3000) random token soups through the ASCII, JSON and FITS readers; + 60 (400) mutations of each of six base files (range FITS u64 and u16, NUNIQ FITS, "
+                "documents (any panic is a failure); + 500 (20000) random token soups through the ASCII, JSON and FITS readers; + 60 (2000) mutations of each of six base files (range FITS u64 and u16, NUNIQ FITS, "
                 "ST FITS v2, a 200-row multi-order map, a sky map): one header card set to a boundary value (NAXIS1/2, MOCORDER, MOCORD_*, TFORM1, ORDERING, MOCVERS, ...), one data word set to a boundary value "
                 "(NUNIQ 0..3, codes beyond the deepest depth, all ones, sign bit), truncation, a card blanked or replaced by END, random header bytes — each through from_fits_ivoa (fully consumed), "
                 "from_fits_multiordermap, from_fits_skymap and the three store loaders; giant header counts in child processes limited to 3 GB; 19 boundary text documents through the 7 text loaders of the "
@@ -137,11 +137,12 @@ PROPS = {
             "the library operation applied by op1/op2/opn is a parameter of the theorems (any function of the operands' values); the driver instantiates it with the proved operators of C01/C06"],
         "assumptions": COMMON_ASSUME + [
             "concurrency theorem: executions are sequences of lock sections (RwLock atomicity assumed); hypothesis SafeTrace = no section drops an operand of an operation that is between its read and its write section (the statement's 'shared read-only operands')",
-            "lock fairness / re-entrancy / poisoning are runtime behaviour: exercised by 8 real threads under a watchdog (direct implementation checks conc-*), not proved",
+            "the lock sections taken by each call are observed through the add-only hook (cargo feature verif_hooks of crate moc) and compared with the model's lockTrace; theorem lock_discipline: they never nest",
+            "lock fairness / poisoning are runtime behaviour: exercised by 8 real threads under a watchdog (direct implementation checks conc-*), not proved",
             "space-time entries and the constructors from geometry are outside the modelled population (S-, T-, F-MOCs inserted as values)"],
-        "rule": "ONE continuous sequential history on the process-wide store (6 000 calls quick / 60 000 thorough + 259-copy bursts + a final sweep of 80 indices): add, copy, drop, get, not, degrade, and, or, "
+        "rule": "ONE continuous sequential history on the process-wide store (6 000 calls quick / 80 000 thorough + 259-copy bursts + a final sweep of 80 indices): add, copy, drop, get, not, degrade, and, or, "
                 "xor, minus, multi-and/or/xor over S/T/F values, with dead or never-allocated indices (1 in 12), mismatched kinds, empty operand lists, drain phases (slot reuse order) — every answer "
-                "(index handed out, value, error class) compared with the model state kept from line to line; then 8 threads x 2.5 s (12 s thorough) of private histories on 4 shared read-only operands: "
+                "(index handed out, value, error class, and the lock sections R+R-/W+W- the call took) compared with the model state kept from line to line; then 8 threads x 2.5 s (30 s thorough) of private histories on 4 shared read-only operands: "
                 "every value checked against the library result, indices pairwise distinct while live, stall watchdog (10 s), store usable afterwards. distinct_nontrivial = distinct op lines.",
         "explanation": "theorems: refinement of the slab store to a reference registry for every call and history, freshness of handed-out indices, value stability, count arithmetic, two-phase atomicity, interleavings = sequential order of completion sections; correspondence on a long history + threaded run",
     },
@@ -164,8 +165,8 @@ PROPS = {
             "the hints of the two file streams inside the tool are reproduced in-process from the same files (source kind fits-stream); by cli_op2_sem the result does not depend on them as long as they are consistent",
             "`moc from pos`: the HEALPix hash of a position is computed by cdshealpix in the harness (oracle for the hash only); geometry sub-commands (cone, polygon, ...), filter, view, hprint, info and the ST variants of op are not driven",
             "clap's parsing of file names that resemble a sub-command (e.g. a relative `a.fits`) is outside the model; the harness passes absolute paths"],
-        "rule": "for each quantity all 9 (left width, right width) pairs x 2 (12 thorough) random operand pairs (empty, full, shallow, deepest depth) x {inter, union, symdiff, minus} with a random output format "
-                "(fits, ascii, json); per (quantity, width) 2 (12) MOCs through complement, degrade to a random depth and all 9 convert pairs {fits, ascii, json} x {fits, ascii, json} (folded / offset text inputs); "
+        "rule": "for each quantity all 9 (left width, right width) pairs x 2 (24 thorough) random operand pairs (empty, full, shallow, deepest depth) x {inter, union, symdiff, minus} with a random output format "
+                "(fits, ascii, json); per (quantity, width) 2 (24) MOCs through complement, degrade to a random depth and all 9 convert pairs {fits, ascii, json} x {fits, ascii, json} (folded / offset text inputs); "
                 "NUNIQ (v1) left operand against a u32 right operand; `from timestamp` / `from timerange` (microseconds, depths 0..61, instants at both ends of the time domain, duplicates, touching ranges) "
                 "and `from pos`; invalid inputs (missing file, S-MOC vs T-MOC, stream inputs, truncated / corrupted / random / text-as-FITS files, out-of-domain / overlapping / reversed / garbage ASCII, garbage "
                 "lines and out-of-range depths for `from`, out-of-range degrade depth): non-zero exit status with a message and never exit 101. distinct_nontrivial = distinct op lines with a non-empty operand.",
